@@ -709,6 +709,27 @@ func rulePointerWrapper(c *Ctx) {
 			}
 		}
 	}
+	// the wire type read from the tag is handed on unchanged (the slice readers
+	// behind a pointer need to see WTLength to accept the repeated-field form)
+	wtOK := true
+	var wtParam *ssa.Parameter
+	for _, prm := range f.Params {
+		if typeName(prm.Type()) == "WireType" {
+			wtParam = prm
+		}
+	}
+	for _, b := range f.Blocks {
+		for _, in := range b.Instrs {
+			if call, ok := in.(*ssa.Call); ok && call.Common().IsInvoke() && call.Common().Method.Name() == "Read" {
+				args := call.Common().Args
+				if wtParam == nil || len(args) != 3 || args[2] != ssa.Value(wtParam) {
+					wtOK = false
+				}
+			}
+		}
+	}
+	c.Oblige("T.ptr", wtOK, f.Pos(), name, "Read passes the wire type through unchanged",
+		"the pointee's codec must see the wire type that was on the wire, not the one the codec would write: a default-mode slice reader behind a pointer accepts the repeated-field form only when it is told WTLength", nil)
 	c.Oblige("T.ptr", readCall != nil && newStored && rets >= 1 && retOK, f.Pos(), name, "Read allocates when nil and always delegates",
 		fmt.Sprintf("a present pointer must read back non-nil even when its encoding is empty: allocation under the nil test: %v, every return is a delegated Read: %v", newStored, rets >= 1 && retOK), nil)
 	c.Floor("T.ptr", 6)
